@@ -457,6 +457,22 @@ pub struct DegreeEnvironment {
     // Local variables that have been assigned to, whether or not the degree of
     // the assigned value is known.
     assigned: HashSet<VariableName>,
+    // The degree of the condition that decides along which edge the current
+    // basic block is entered.
+    merge_control: MergeControl,
+}
+
+/// What is known about the branch condition that decides which of the
+/// definitions merged by the phi expressions of a basic block is taken.
+#[derive(Default, Clone, Copy, PartialEq, Eq)]
+pub enum MergeControl {
+    /// The degree of the condition is not known (yet).
+    #[default]
+    Unknown,
+    /// The condition is constant: the same definition is taken for all inputs.
+    Constant,
+    /// The condition may depend on the inputs.
+    NonConstant,
 }
 
 impl DegreeEnvironment {
@@ -497,6 +513,17 @@ impl DegreeEnvironment {
     #[must_use]
     pub fn is_assigned(&self, var: &VariableName) -> bool {
         self.assigned.contains(var)
+    }
+
+    /// Sets what is known about the condition controlling the phi expressions
+    /// of the basic block which is visited next.
+    pub fn set_merge_control(&mut self, control: MergeControl) {
+        self.merge_control = control;
+    }
+
+    #[must_use]
+    pub fn merge_control(&self) -> MergeControl {
+        self.merge_control
     }
 
     #[must_use]
